@@ -519,6 +519,12 @@ func fixtureByID(id string) (stick.Value, error) {
 			m := map[string]interface{}{}
 			m["me"] = m
 			return m, nil
+		case "ptrself":
+			// a map keyed by a pointer to a node that holds a map containing itself
+			type node struct{ Links map[string]interface{} }
+			n := &node{Links: map[string]interface{}{}}
+			n.Links["me"] = n.Links
+			return map[*node]int{n: 1}, nil
 		case "mixed":
 			return map[interface{}]string{1: "int", "1": "str", "true": "strtrue", true: "bool"}, nil
 		case "nilss":
